@@ -130,6 +130,11 @@ class Server(object):
         self.apps.append(app)
         self.sim.log('srv-accept', conn.index)
         self._check_cut0(app)
+        if app.beh.get('raw'):
+            data = bytes.fromhex(app.beh.get('send_hex', ''))
+            if data:
+                conn.server_send(data)
+            return
         st = app.beh.get('status') or {}
         if app.beh.get('close_on_accept') or \
                 st.get('mode') == 'close_on_accept':
@@ -149,6 +154,8 @@ class Server(object):
 
     def on_data(self, conn, data):
         app = conn.app
+        if app.beh.get('raw'):
+            return
         if app.dec_in is not None:
             data = app.dec_in.update(data)
         app.raw_plain += data
